@@ -14,7 +14,7 @@
 From Coq Require Import List NArith ZArith Arith Bool Lia ZifyBool ZifyN ZifyNat.
 From DTN Require Import Lib.Bytes Lib.Cbor Lib.CborProofs Lib.Crc Lib.CrcProofs.
 From DTN Require Import Model.Bundle Proofs.BundleProofs Model.BundleCrc.
-From DTN Require Model.BpAgent Proofs.BpAgentProofs Gen.CrcTable.
+From DTN Require Model.BpAgent Gen.CrcTable.
 Import ListNotations.
 Local Open Scope N_scope.
 
@@ -377,10 +377,12 @@ Theorem gate_first (matches : N -> BpAgent.eid -> bool) (a : BpAgent.agent) (ab 
   crc_ok_primary (prim bu) = false \/ (exists blk, In blk (blocks bu) /\ crc_ok_block blk = false) ->
   BpAgent.recv matches a ab = (a, [(ab, [])]).
 Proof.
-  intros Hv Hbad. apply BpAgentProofs.bad_crc_ignored. rewrite Hv.
-  destruct Hbad as [Hp|(blk & Hin & Hb)].
-  - now apply crc_ok_bundle_false_primary.
-  - now apply (crc_ok_bundle_false_block bu blk).
+  intros Hv Hbad.
+  assert (Hc : BpAgent.b_crc_ok ab = false).
+  { rewrite Hv. destruct Hbad as [Hp|(blk & Hin & Hb)].
+    - now apply crc_ok_bundle_false_primary.
+    - now apply (crc_ok_bundle_false_block bu blk). }
+  unfold BpAgent.recv, BpAgent.recv_core, BpAgent.accepted. rewrite Hc. reflexivity.
 Qed.
 
 (** * Non-vacuity of the receive-side hypotheses *)
@@ -489,6 +491,88 @@ Proof.
   destruct b as [t n f ct d c]. cbn [bcrc_type bcrc].
   intros [[-> ->]|[-> | ->]]; [reflexivity| |]; destruct c as [v|]; reflexivity.
 Qed.
+
+(** * Left-over or missing items of a canonical block array are rejected by both readings *)
+
+Lemma strict_block_arity c b : cblock_of_cbor c = Some b -> block_arity_bad c = false.
+Proof.
+  destruct c as [| | | |l| | |]; cbn [cblock_of_cbor]; try discriminate.
+  unfold cblock_of_items.
+  destruct (pop_uint l) as [[t l1]|] eqn:E1; [|discriminate]. apply pop_uint_inv in E1. subst l.
+  destruct (pop_uint l1) as [[n l2]|] eqn:E2; [|discriminate]. apply pop_uint_inv in E2. subst l1.
+  destruct (pop_uint l2) as [[f l3]|] eqn:E3; [|discriminate]. apply pop_uint_inv in E3. subst l2.
+  destruct (pop_uint l3) as [[ct l4]|] eqn:E4; [|discriminate]. apply pop_uint_inv in E4. subst l3.
+  destruct (pop_bstr l4) as [[d l5]|] eqn:E5; [|discriminate]. apply pop_bstr_inv in E5. subst l4.
+  destruct (crc_type_ok ct); [|discriminate].
+  destruct (end_crc ct l5) as [c|] eqn:E6; [|discriminate]. intros _.
+  apply end_crc_inv in E6. destruct E6 as [-> Hc].
+  cbn [block_arity_bad nth_error length]. destruct c as [v|]; cbn [crc_items length].
+  - destruct (N.eqb_spec ct 0) as [H0|H0]; [|reflexivity]. apply Hc in H0. discriminate.
+  - rewrite (proj1 Hc eq_refl). reflexivity.
+Qed.
+
+Lemma lax_block_arity c b : lblock_of_cbor c = Some b -> block_arity_bad c = false.
+Proof.
+  destruct c as [| | | |l| | |]; cbn [lblock_of_cbor]; try discriminate.
+  unfold lblock_of_items, lblock_head.
+  destruct l as [|t [|n [|f [|ct0 [|d rest]]]]]; try discriminate.
+  destruct (lax_uint t); [|discriminate]. destruct (lax_uint n); [|discriminate].
+  destruct (lax_uint f); [|discriminate]. destruct (lax_uint ct0) as [ct|] eqn:Ect; [|discriminate].
+  destruct (lax_bstr d); [|discriminate].
+  cbn [block_arity_bad nth_error].
+  destruct ct0 as [x| | | | | | |]; try (intros _; reflexivity).
+  cbn [lax_uint] in Ect. injection Ect as ->.
+  destruct (ct =? 0) eqn:E0.
+  - destruct rest; [intros _; reflexivity|discriminate].
+  - destruct ((ct =? 1) || (ct =? 2)); [|discriminate].
+    destruct rest as [|v [|w rest]]; try discriminate. intros _. reflexivity.
+Qed.
+
+Lemma cblocks_of_arity : forall l bl, cblocks_of l = Some bl -> existsb block_arity_bad l = false.
+Proof.
+  induction l as [|c l IH]; intros bl H; [reflexivity|]. cbn [cblocks_of] in H.
+  destruct (cblock_of_cbor c) as [b|] eqn:E; [|discriminate].
+  destruct (cblocks_of l) as [r|] eqn:E2; [|discriminate].
+  cbn [existsb]. rewrite (strict_block_arity c b E), (IH r eq_refl). reflexivity.
+Qed.
+
+Lemma lblocks_of_arity : forall l bl, lblocks_of l = Some bl -> existsb block_arity_bad l = false.
+Proof.
+  induction l as [|c l IH]; intros bl H; [reflexivity|]. cbn [lblocks_of] in H.
+  destruct (lblock_of_cbor c) as [b|] eqn:E; [|discriminate].
+  destruct (lblocks_of l) as [r|] eqn:E2; [|discriminate].
+  cbn [existsb]. rewrite (lax_block_arity c b E), (IH r eq_refl). reflexivity.
+Qed.
+
+(** a canonical block array with left-over (or missing) items: no reading of the
+    model decodes the bundle *)
+Theorem arity_bad_rejected (bs : bytes) :
+  arity_verdict bs = 1 -> decode_bundle bs = None /\ lax_decode_bundle bs = None.
+Proof.
+  unfold arity_verdict, decode_bundle, lax_decode_bundle.
+  destruct (decode bundle_fuel bs) as [[c tl]|]; [|discriminate].
+  destruct c as [| | | |l| | |]; try discriminate. destruct l as [|p rest]; [discriminate|].
+  destruct (existsb block_arity_bad rest) eqn:E; [intros _|discriminate]. split.
+  - cbn [bundle_of_cbor bundle_of_items]. destruct p as [| | | |pl| | |]; try reflexivity.
+    destruct (primary_of_items pl); [|reflexivity].
+    destruct (cblocks_of rest) as [bl|] eqn:E2; [|reflexivity].
+    rewrite (cblocks_of_arity rest bl E2) in E. discriminate.
+  - destruct p as [| | | |pl| | |]; try reflexivity.
+    destruct (primary_of_items pl) as [pp|]; [|reflexivity]. destruct (is_admin pp); [reflexivity|].
+    destruct (lblocks_of rest) as [bl|] eqn:E2; [|reflexivity].
+    rewrite (lblocks_of_arity rest bl E2) in E. discriminate.
+Qed.
+
+(** the two structural single-bit corruptions of the corpus: next block swallowed
+    (head 0x86 -> 0x87) and CRC type 2 -> 0 with the CRC item left over *)
+Definition arity_witness_octets : bytes :=
+  unhex 109 0x9f89071a00024004028201682f2f6d652f782f798201692f2f6e6f64652d622f820100821b000000a2fb40580c171903e844381fb39786071901000002491bffffffffffffffff44e583d6cb8601010101570c5fd276561a2dbcfcd9ef5abe279084381624cee40350427212ff.
+
+Example arity_bad_nonvacuous :
+  arity_verdict arity_witness_octets = 2 /\ strict_verdict arity_witness_octets = (2, true)
+  /\ arity_verdict (xor_at 54 [1] arity_witness_octets) = 1
+  /\ arity_verdict (xor_at 60 [2] arity_witness_octets) = 1.
+Proof. repeat (split; [vm_compute; reflexivity|]). vm_compute; reflexivity. Qed.
 
 (** * The table translated from [blocks.py] is the one the model uses *)
 
